@@ -6,6 +6,7 @@ package main
 import (
 	"fmt"
 	"os"
+	"reflect"
 	"strings"
 	"sync"
 	"time"
@@ -125,6 +126,10 @@ func execute(plan *Plan, opts execOpts) *RunResult {
 			t.isSink = true
 		}
 		s.tasks = append(s.tasks, t)
+	}
+	if plan.Cfg.LateReg > 0 {
+		lateRegCounter++
+		redact.RegisterSafeType(reflect.TypeOf(lateRegValue()))
 	}
 	var wg sync.WaitGroup
 	for _, t := range s.tasks {
